@@ -234,5 +234,15 @@ def rule_u6(repo):
     return res
 
 
+def rule_u7(repo):
+    """The annotation search of the printer clears, recovers and looks for constant types by structural
+    recursion; Term.get_stvars collects what may be left over.  Each must visit every sub-term."""
+    from ..traverse import traversal_rule
+    return traversal_rule(repo, 'C08.U7', 'the recursions that clear, restore and search type annotations look at every sub-term',
+                          [(INFER, 'infer_printed_type.<locals>.clear_const_type'), (INFER, 'infer_printed_type.<locals>.recover_const_type'),
+                           (INFER, 'infer_printed_type.<locals>.find_to_replace'), ('kernel/term.py', 'Term.get_stvars.<locals>.rec')],
+                          'a constant in the skipped position keeps (or loses) its annotation while the rest of the term is re-inferred')
+
+
 def rules(repo):
-    return [rule_u1(repo), rule_u2(repo), rule_u3(repo), rule_u4(repo), rule_u5(repo), rule_u6(repo)]
+    return [rule_u1(repo), rule_u2(repo), rule_u3(repo), rule_u4(repo), rule_u5(repo), rule_u6(repo), rule_u7(repo)]
